@@ -1,4 +1,5 @@
 """C08 Captured output goes only to its target; the main output resumes in order."""
+import exectrace
 import simple
 
 
@@ -12,6 +13,10 @@ def check(run, only=None):
                 "also two consecutive constructs; non-trivial = at least 2 captures are opened during the run")
     run.assumptions = ["expected output is defined structurally per construct in spec/props/C08.tla (independent of the writer stack)"]
     simple.gen_and_replay(run, "C08", nontrivial=nontrivial, only=only)
+
+    if only is None:
+        # binding T: seeded random programs over the whole schema, accepted by TLC against the reference executor
+        exectrace.run_exec_trace(run, 20000 if run.tier == "thorough" else 1000, 8)
 
 
 def replay(run, path):
